@@ -118,6 +118,14 @@ def crash_in_ice(err):
         return None
     tail = err[m.start():]
     if "github.com/blugelabs/ice/v2." not in tail:
+        # a panic on a goroutine that the zstd codec started on ice's behalf has no ice frame on its stack; the harness
+        # never calls that library itself, so a crash whose first stack is inside it (and has no harness frame) died
+        # under an ice call too
+        first = tail.split("\n\n", 2)[:2]
+        block = "\n".join(first)
+        if "github.com/klauspost/compress/zstd." in block and "\nmain." not in block:
+            frames = [l.strip() for l in block.splitlines() if "klauspost/compress/zstd." in l][:4]
+            return m.group(1) + " | (codec goroutine started under an ice call) " + " <- ".join(frames)
         return None
     # a panic raised by the harness itself (scenario refers to unknown handle, marshal error) is a machinery fault
     if m.group(1).startswith("panic: scenario") or m.group(1).startswith("panic: trace") or m.group(1).startswith("panic: unknown op"):
